@@ -15,6 +15,7 @@ fn run_line(line: &str) {
         Some("L2") => l2::run_case(line),
         Some("L3") => l3::run_case(line),
         Some("TD") => l3::run_td_case(line),
+        Some("SK") => l3::run_sk_case(line),
         _ => {}
     }));
     if let Err(p) = r {
